@@ -26,7 +26,7 @@ import (
 )
 
 const modPath = "github.com/taskctl/taskctl"
-const vrtPath = modPath + "/internal/vrt"
+const vrtPath = modPath + "/vrt"
 
 type multi []string
 
@@ -40,6 +40,7 @@ var (
 	pkgsFlag = flag.String("pkgs", "pkg/scheduler,pkg/runner,pkg/executor,pkg/output,pkg/variables,pkg/task,pkg/utils,internal/watch,internal/config", "packages to instrument (relative to repo)")
 	execShim = flag.String("execshim", "pkg/scheduler", "packages whose os/exec import is replaced by vexec")
 	noInst   = flag.Bool("noinst", false, "do not rewrite packages (overlay only adds virtual packages)")
+	extPkgs  = flag.String("extpkgs", "", "comma separated import paths of third-party packages to instrument as well (files in the module cache are replaced through the overlay)")
 	virt     multi // srcdir=relative/virtual/dir
 	inject   multi // srcfile=relative/dest/file (in-package test helpers)
 	fieldsF  multi // pkg|Type.field  or pkg|var
@@ -88,7 +89,7 @@ func main() {
 			return nil
 		})
 	}
-	addDir(*rtDir, "internal/vrt")
+	addDir(*rtDir, "vrt")
 	for _, v := range virt {
 		kv := strings.SplitN(v, "=", 2)
 		if len(kv) != 2 {
@@ -146,6 +147,11 @@ func instrument(overlay map[string]string) {
 			patterns = append(patterns, "./"+p)
 		}
 	}
+	for _, p := range strings.Split(*extPkgs, ",") {
+		if p = strings.TrimSpace(p); p != "" {
+			patterns = append(patterns, p)
+		}
+	}
 	shimExec := map[string]bool{}
 	for _, p := range strings.Split(*execShim, ",") {
 		if p = strings.TrimSpace(p); p != "" {
@@ -183,6 +189,9 @@ func instrument(overlay map[string]string) {
 				die(2, "print %s: %v", name, err)
 			}
 			rel, _ := filepath.Rel(*repo, name)
+			if strings.HasPrefix(rel, "..") {
+				rel = filepath.Join("_ext", p.PkgPath, filepath.Base(name))
+			}
 			dst := filepath.Join(*out, "src", rel)
 			os.MkdirAll(filepath.Dir(dst), 0o755)
 			if err := os.WriteFile(dst, buf.Bytes(), 0o644); err != nil {
